@@ -172,13 +172,13 @@ def run(ctx):
             idx += 1
             if not ctx.mine(idx):
                 continue
-            if not ctx.budget_ok():
+            if not ctx.budget_ok(0.6):
                 break
             judge(ctx, topo, exc, n, edges, list(range(n)), "exh5")
     # Part A3: random larger graphs, foreign endpoints, permuted item order
     nrand = ctx.pick({"quick": 400, "thorough": 20000})
     for k in range(nrand):
-        if not ctx.budget_ok():
+        if k >= 40 and not ctx.budget_ok(0.85):
             break
         n = rng.randint(5, 40 if k % 4 == 0 else 12)
         dens = rng.choice([0.03, 0.08, 0.15, 0.3])
@@ -256,7 +256,8 @@ def live_contracts(ctx, topo, exc):
         rng = ctx.rng
         rounds = ctx.pick({"quick": 6, "thorough": 60})
         for r in range(rounds):
-            if not ctx.budget_ok():
+            # the live contracts always get at least two rounds, whatever the load
+            if r >= 2 and not ctx.budget_ok():
                 break
             try:
                 _orm_ddl_round(sa, orm, rng, r)
